@@ -67,8 +67,8 @@ func owTime(r *RNG) time.Time {
 }
 
 var owETagPool = []string{"", "e1", "W/weak", "with \"quote\"", "sp ace", "é", "back\\slash", "a,b", "\t", "'single'", "`back`", "ctl\x01", "\x7f",
-		// tags that already look like a quoted string, or like half of one
-		"\"abc\"", "\"\"", "\"W/\"x\"\"", "\"tag\\\"", "\"", "W/\"w\"", "révision-1", "版-1", "\u00a0", "\u2028"}
+	// tags that already look like a quoted string, or like half of one
+	"\"abc\"", "\"\"", "\"W/\"x\"\"", "\"tag\\\"", "\"", "W/\"w\"", "révision-1", "版-1", "\u00a0", "\u2028"}
 
 func owETag(r *RNG) string { return r.Pick(owETagPool) }
 
